@@ -40,7 +40,8 @@ META = {
     'rule': ("cases = (force field, residue graph) pairs of the C01/C02 generators x one random relabelling and one random definition "
              "order each; from_itp chains of 2-3 copies of a 2-residue block x key permutations; .json graphs with shifted / shuffled "
              "ids; histories of 2-4 gen_params calls; non-trivial = graphs with >= 3 residues and at least one applied link; "
-             "distinct by (force-field text, graph, permutation)"),
+             "distinct by (force-field text, graph, permutation)"
+             "; directed / added families (waves 10-12): links around an atom removal in all definition orders; definitions spread over .ff and .itp files in both orders"),
 }
 
 
